@@ -128,3 +128,22 @@ package trie
 //@   ensures [value]  result2 == nil && istype(original, *fullNode) ==> istype(result0, *fullNode) && istype(result1, *fullNode) && unbox(result0, *fullNode).Children[16] == old(unbox(original, *fullNode).Children[16]) && unbox(result1, *fullNode).Children[16] == old(unbox(original, *fullNode).Children[16])
 //@   ensures [leaf]   !istype(original, *fullNode) && !istype(original, *shortNode) ==> result0 == original && result1 == original && result2 == nil
 //@   ensures [failed] result2 != nil ==> result0 == original && result1 == original
+
+// ---------------------------------------------------------------------------------------------
+// Reloading a node from the in-memory node database (C02): the hash under which the collapsed node is stored
+// is the cached hash of the TOP node only. Every child is expanded without a cached hash - a child that
+// inherited its parent's hash would later be written as a reference to the parent instead of being embedded.
+// topHash(n): the cached hash of an expanded node (nil for value and hash nodes).
+//@ func expandNode
+//@   property C02
+//@   option maypanic
+//@   # what is stored in the node database: collapsed short nodes are non-nil and carry a non-empty compact key
+//@   requires [stored!init] istype(n, *rawShortNode) ==> unbox(n, *rawShortNode) != nil && len(unbox(n, *rawShortNode).Key) >= 1 && len(unbox(n, *rawShortNode).Key) < 1000000000
+//@   ensures [top.short] istype(n, *rawShortNode) ==> istype(result, *shortNode) && unbox(result, *shortNode).flags.hash == hash && unbox(result, *shortNode).flags.gen == cachegen && !unbox(result, *shortNode).flags.dirty
+//@   ensures [top.full]  istype(n, rawFullNode) ==> istype(result, *fullNode) && unbox(result, *fullNode).flags.hash == hash && unbox(result, *fullNode).flags.gen == cachegen && !unbox(result, *fullNode).flags.dirty
+//@   ensures [child.short] istype(n, *rawShortNode) ==> (istype(unbox(result, *shortNode).Val, *shortNode) ==> len(unbox(unbox(result, *shortNode).Val, *shortNode).flags.hash) == 0) && (istype(unbox(result, *shortNode).Val, *fullNode) ==> len(unbox(unbox(result, *shortNode).Val, *fullNode).flags.hash) == 0)
+//@   ensures [leaf] istype(n, valueNode) || istype(n, hashNode) ==> result == n
+//@   ensures [fresh] (istype(result, *shortNode) ==> fresh(unbox(result, *shortNode))) && (istype(result, *fullNode) ==> fresh(unbox(result, *fullNode)))
+//@   ensures [kinds] (istype(result, *shortNode) ==> istype(n, *rawShortNode)) && (istype(result, *fullNode) ==> istype(n, rawFullNode))
+//@   loop 0: invariant i >= 0 && node != nil && fresh(node) && node.flags.hash == hash && node.flags.gen == cachegen && !node.flags.dirty
+//@   modifies nothing
